@@ -31,7 +31,7 @@ Record scen := mkscen {
   sc_cons : ckind; sc_ctx0 : bool; sc_maycancel : bool }.
 
 Definition params_of (c : scen) : params :=
-  mkparams (sc_cap c) (sc_pre c) (sc_startfail c) (sc_files c) (consumer_of (sc_cons c)) (sc_ctx0 c).
+  mkparams (sc_cap c) (sc_pre c) (sc_startfail c) (sc_files c) (consumer_of (sc_cons c)) (sc_ctx0 c) false.
 
 (** file shapes the harness prints *)
 Definition fdata (healthy : nat) (bad : bool) (mid : fmid) : file :=
